@@ -93,22 +93,72 @@ structure Use where
   qual : Bool
   deriving DecidableEq, Repr, Inhabited
 
-/-- `impl tr::Ttr for ty::(which)ty` (`ty = "int32"`: the builtin type) -/
+/-- the outermost constructor of the target type of an impl -/
+inductive Shape where
+  /-- `H::(which)H` — a struct of package `head` -/
+  | nom
+  /-- `int32` -/
+  | prim
+  /-- `Vec[A]` -/
+  | vec
+  /-- `Ref[A]` -/
+  | ref
+  /-- `(A, int32)` -/
+  | tup
+  /-- `[A; 2]` -/
+  | arr
+  /-- `(A) -> int32` -/
+  | fn
+  /-- `dyn H::TH` -/
+  | dynT
+  /-- `H::GH[A]` — a generic struct of package `head` applied to `A` -/
+  | gen
+  deriving DecidableEq, Repr, Inhabited
+
+/-- `impl tr::Ttr for TYPE` or, with `inherent`, `impl TYPE { … }`.  `head` is the package of the
+    outermost nominal type (or of the trait of a `dyn`), `arg` the package of the argument struct
+    `A = arg::Sarg`, or `"int32"`; both are `""` where the shape has no such part. -/
 structure ImplD where
   file : Nat
+  inherent : Bool
   tr : Pkg
-  ty : Pkg
+  shape : Shape
+  head : Pkg
+  arg : Pkg
   which : String
   deriving DecidableEq, Repr, Inhabited
 
 /-- key of `trait_impls`: (trait name, type) -/
 structure Key where
   tr : Pkg
-  ty : Pkg
+  shape : Shape
+  head : Pkg
+  arg : Pkg
   which : String
   deriving DecidableEq, Repr, Inhabited
 
-def ImplD.key (d : ImplD) : Key := ⟨d.tr, d.ty, d.which⟩
+def ImplD.key (d : ImplD) : Key := ⟨d.tr, d.shape, d.head, d.arg, d.which⟩
+
+def intName : Pkg := "int32"
+
+def Shape.hasHead : Shape → Bool
+  | .nom | .gen | .dynT => true
+  | _ => false
+
+def Shape.hasArg : Shape → Bool
+  | .vec | .ref | .tup | .arr | .fn | .gen => true
+  | _ => false
+
+/-- the packages the target type names -/
+def ImplD.tyNames (d : ImplD) : List Pkg :=
+  (if d.shape.hasHead then [d.head] else []) ++
+  (if d.shape.hasArg && d.arg != intName then [d.arg] else [])
+
+/-- `is_local_nominal_type`: the type is a struct/enum of the package, or a generic application
+    whose head is one; `Vec`, `Ref`, tuples, arrays, function types, `dyn` and primitives belong to
+    no user package -/
+def ImplD.typeLocalTo (d : ImplD) (q : Pkg) : Bool :=
+  (d.shape == .nom || d.shape == .gen) && d.head == q
 
 structure PkgSrc where
   name : Pkg
@@ -124,9 +174,9 @@ inductive Cls where
   | orphan
   | dupLocal
   | dupCross
+  /-- `Inherent impl for non-local type … is not allowed` -/
+  | inherentNonLocal
   deriving DecidableEq, Repr, Inhabited
-
-def intName : Pkg := "int32"
 
 def fileImports (q : PkgSrc) (file : Nat) : List Pkg := if file = 0 then q.imports else []
 
@@ -153,7 +203,7 @@ def useClasses (q : PkgSrc) (u : Use) : List Cls :=
   | .bound => if allowed then [] else [.unresolved]
 
 /-- every package defines `impl TP for SP` itself -/
-def stdKey (p : Pkg) : Key := ⟨p, p, "S"⟩
+def stdKey (p : Pkg) : Key := ⟨p, .nom, p, "", "S"⟩
 
 structure LocalSt where
   cls : List Cls
@@ -161,17 +211,20 @@ structure LocalSt where
   reg : List Key
   deriving Repr
 
-/-- `define_trait_impl` for one declaration -/
+/-- `define_trait_impl` / `define_inherent_impl` for one declaration -/
 def implStep (q : PkgSrc) (st : LocalSt) (d : ImplD) : LocalSt :=
   let fi := fileImports q d.file
-  if !packageAllowed d.tr q.name fi then
+  -- a package named in the type that is not visible: "not imported" + unknown type / trait
+  let tyCls := if d.tyNames.all (fun n => packageAllowed n q.name fi) then [] else [Cls.notImported, Cls.unresolved]
+  let typeLocal := d.typeLocalTo q.name
+  if d.inherent then
+    if typeLocal then { st with cls := st.cls ++ tyCls }
+    else { st with cls := st.cls ++ tyCls ++ [.inherentNonLocal] }
+  else if !packageAllowed d.tr q.name fi then
     -- the trait does not resolve: "not imported" + "Trait … is not defined", nothing else is checked
     { st with cls := st.cls ++ [.notImported, .unresolved] }
   else
-    let builtinTy := d.ty == intName
-    let tyCls := if builtinTy || packageAllowed d.ty q.name fi then [] else [Cls.notImported, Cls.unresolved]
     let traitLocal := d.tr == q.name
-    let typeLocal := !builtinTy && d.ty == q.name
     if !traitLocal && !typeLocal then { st with cls := st.cls ++ tyCls ++ [.orphan] }
     else if st.reg.contains d.key then { st with cls := st.cls ++ tyCls ++ [.dupLocal] }
     else { cls := st.cls ++ tyCls, reg := st.reg ++ [d.key] }
